@@ -18,6 +18,40 @@ TABLE = {
         note="closed-form derivatives (self-tested against finite differences); float64; monomial basis "
              "determines constant-coefficient operators of order<=2 only",
         ref="DESIGN.md §4 C01"),
+    "C08": dict(
+        technique="runtime invariant monitor on generator stores and on every batch of long get_batch histories",
+        level="exploration",
+        text="Counts, shapes, closed-box membership (bounds cast to the array dtype) and facet structure are "
+             "asserted on the stores of thousands of constructed generators (all n in 1..200 for the 1-D grid in "
+             "the thorough tier, 6 boxes, float32 and float64) and on every batch of histories crossing >= 3 "
+             "reshuffles of every stream.",
+        note="declared shapes taken from the class docstrings / batch annotations; d-dimensional grid only for n=k**d",
+        ref="DESIGN.md §4 C08"),
+    "C09": dict(
+        technique="online history checker (epoch automaton) over recorded get_batch sequences",
+        level="exploration",
+        text="Every stream (times, interior, each border facet, observation rows, each parameter key) of every "
+             "history is fed to an observational epoch checker: store multiset invariant, batches are stored rows, "
+             "no point twice per epoch when b|n, minimal cover otherwise, order changes between epochs. The small "
+             "scope n<=8 (12 thorough), b<=n is enumerated exhaustively, compiled and eager.",
+        note="stored rows pairwise distinct; fixed-size batches so an epoch has ceil(n/b) batches; RAR generators excluded (C16/C17)",
+        ref="DESIGN.md §4 C09, Appendix A.2"),
+    "C14": dict(
+        technique="runtime structural monitor: factors recovered from each batch must rebuild it and lie in the stores",
+        level="exploration",
+        text="For every batch of 20-batch histories (all three streams reshuffling at different rates) the interior "
+             "and each border facet must equal the time-major product (or the pairing) of a temporal batch and a "
+             "spatial batch that are rows of the generator's stores, with one temporal factor per call.",
+        note="time interval disjoint from the spatial box; one temporal batch per call shared by interior and facets",
+        ref="DESIGN.md §4 C14"),
+    "C15": dict(
+        technique="runtime alignment monitor with row-tagged tables over multi-epoch get_batch histories",
+        level="exploration",
+        text="User tables carry a row tag in every cell; every row of every returned batch (inputs, values, each "
+             "observed parameter; per network for the multi-network loader) must come from one original row, "
+             "parameter samples from their own range or table (table first, both documented shapes accepted).",
+        note="'empty entry' read as None / {} / absent; tables disjoint from ranges so the source of a sample is unambiguous",
+        ref="DESIGN.md §4 C15"),
 }
 
 
